@@ -20,7 +20,7 @@ ID = "C11"
 RULE = (
     "type builders (plain, List/Set/Dict/DefaultDict/Tuple/Tuple[()]/Tuple[T,...]/Type/Optional/Union/Callable/Iterator/"
     "Generator, anonymous TypedDicts at top/list/dict/tuple/defaultdict/nested positions) x every ordered pair "
-    "(thorough: also triples) of 14 classes spread over modules utils / pkg.utils / foo / barfoo / pkg.typing / thing.thing / "
+    "(thorough: also triples) of 17 classes spread over modules utils / pkg.utils / foo / barfoo / pkg.typing / thing.thing / "
     "nest.Outer.Inner / _io / *NoneType* / the target's own class / builtins x target in {tgt, utils} x function kinds; "
     "state = one rendered module stub, transition = one annotation evaluated in the stub's own namespace and compared "
     "structurally; non-trivial = annotation mentioning a non-builtin class"
@@ -29,7 +29,7 @@ EXPLANATION = "exhaustive bounded enumeration; translation validation of every r
 ASSUMPTIONS = ["no two classes with the same short name in different modules (outside the alphabet)", "k=10 so single TypedDicts are never collapsed"]
 
 COLLIDE = str(VERIF / "fixtures" / "collide")
-LENIENT = ["utils", "pkg", "pkg.utils", "pkg.typing", "foo", "barfoo", "thing", "nest", "nonet", "tgt", "_io", "io", "typing", "vfx", "vfx.shapes"]
+LENIENT = ["_priv", "utils", "pkg", "pkg.utils", "pkg.typing", "foo", "barfoo", "thing", "nest", "nonet", "tgt", "_io", "io", "typing", "vfx", "vfx.shapes"]
 
 
 def setup_path() -> None:
@@ -40,6 +40,7 @@ def setup_path() -> None:
 def classes() -> List[Any]:
     setup_path()
     import _io
+    import _priv
     import barfoo
     import foo
     import nest
@@ -52,7 +53,7 @@ def classes() -> List[Any]:
 
     return [
         utils.B, pkg.utils.C, pkg.P, foo.Baz, barfoo.Qux, pkg.typing.X, thing.thing, thing.thing.Point, nest.Outer.Inner, nest.Outer.Inner.Deep,
-        _io.StringIO, nonet.MyNoneType, nonet.NoneTypeX, tgt.Own, int, type(None),
+        _io.StringIO, _priv.PV, nonet.MyNoneType, nonet.NoneTypeX, tgt.Own, int, type(None),
     ]
 
 
